@@ -202,7 +202,7 @@ DiffPara(e, g, ctx, cls) ==
                     \cup (IF lostX = {} THEN {<<"nontext-changed", ctx>>} ELSE {})
       moveW == IF eT = gT /\ eX = gX /\ KT(ea) # KT(ga) THEN {<<"nontext-moved", ctx>>} ELSE {}
       fmtW  == IF eT # gT THEN {}
-               ELSE {<<"format-lost", IF eC[i].val THEN "value-char" ELSE "outside-char", ctx>> :
+               ELSE {<<"format-lost", IF eC[i].val THEN "value-char" ELSE "outside-char", ctx, cls>> :
                        i \in {j \in 1..Len(eC) : eC[j].fs # {} /\ gC[j].f \notin eC[j].fs}}
       pprW  == IF e.anyppr THEN {} ELSE PropDiff("ppr", "pPr", e.ppr, g.ppr, ctx)
   IN textW \cup objW \cup moveW \cup fmtW \cup pprW
